@@ -25,6 +25,10 @@ package regprocessor
 //@   requires len(p.prefixOverrideSubnets) == len(p.prefixOverrideSubnetsCumulativeWeights)
 // C12: the response returned to the client is the very object attached to the wrapper that is forwarded
 //@   ensures @C12: result1 == nil ==> result0 == c2sPayload.RegistrationResponse
+//@   ensures @C12 @C11: result1 == nil ==> result0 != nil && c2sPayload != nil
+// frame: program memory (the configured overrides may rewrite the wrapper and what it refers to) and the ghost
+// state of the selector lock and of the HKDF readers; no other lock is touched
+//@   assigns memory, rheld(&p.selectorMutex), acq(&p.selectorMutex), drawn
 // (The clause "no transport-parameter override when the client disabled registrar overrides" is not claimed for this
 // function: its obligations need frame reasoning across the whole body and did not discharge within the time limit.)
 // C12: a phantom in an excluded subnet is never replaced: the override stage is reached only if no exclusion contains it
@@ -86,13 +90,37 @@ package regprocessor
 // that claims the registrar's own channel as its source is replaced by the address the request really came from.
 // C11: any wrapper (absent sub-messages, short secrets) is processed without a nil dereference.
 //@ func (p *RegProcessor) processC2SWrapper(c2sPayload *pb.C2SWrapper, clientAddr []byte, regMethod pb.RegistrationSource) ([]byte, error)
-//@   requires p != nil && p.metrics != nil
+//@   requires p != nil
+//@   requires @SAFETY: p.metrics != nil
 //@   atcall proto.Marshal#1 before: assert @C12: p.authenticated && c2sPayload.RegistrationResponse != nil && arg0 == box(c2sPayload.RegistrationResponse)
 //@   atcall proto.Marshal#1 after: snap signedBytes := res0
 //@   atcall ed25519.Sign before: assert @C12: defined(signedBytes) && arg1 == signedBytes && arg0 == p.privkey
 //@   atcall proto.Marshal#2 before: assert @C12: arg0 == box(payload) && payload.RegistrationResponse == c2sPayload.RegistrationResponse && payload.SharedSecret == c2sPayload.SharedSecret && payload.RegistrationPayload == c2sPayload.RegistrationPayload
 //@   atcall proto.Marshal#2 before: assert @C12: p.authenticated && c2sPayload.RegistrationResponse != nil ==> defined(signedBytes) && payload.RegRespBytes == signedBytes
+//@   atcall proto.Marshal#2 before: assert @C12: !(p.authenticated && c2sPayload.RegistrationResponse != nil) ==> len(payload.RegRespBytes) == 0 && len(payload.RegRespSignature) == 0
 //@   atcall proto.Marshal#2 before: assert @C12: (len(c2sPayload.RegistrationAddress) == 0 && c2sPayload.RegistrationAddress == nil || (c2sPayload.RegistrationSource != nil && *c2sPayload.RegistrationSource == regMethod) || (c2sPayload.RegistrationSource == nil && regMethod == 0)) && clientAddr != nil ==> payload.RegistrationAddress == clientAddr
 //@   ensures @C11 @C12: c2sPayload == nil ==> result1 == ErrNoC2SBody
 //@   ensures @C11: true
 //@   checks safety
+
+//@ func (p *RegProcessor) sendToZMQ(message []byte) error
+//@   assigns held(&p.zmqMutex), acq(&p.zmqMutex)
+//@   trusted
+
+// C12 "registration-response and signature fields supplied by the client are discarded": both entry points clear a
+// client-supplied response before anything else looks at the wrapper, the forwarded wrapper is rebuilt field by field
+// (so client-supplied RegRespBytes / RegRespSignature never travel on), and the response returned to the client of a
+// bidirectional registration is the very object attached to the wrapper that is forwarded.
+//@ func (p *RegProcessor) RegisterUnidirectional(c2sPayload *pb.C2SWrapper, regMethod pb.RegistrationSource, clientAddr []byte) error
+//@   requires p != nil && p.metrics != nil
+//@   atcall processC2SWrapper before: assert @C12: arg1 == c2sPayload && (c2sPayload == nil || c2sPayload.RegistrationResponse == nil)
+//@   ensures @C11: true
+//@   checks safety
+
+//@ func (p *RegProcessor) RegisterBidirectional(c2sPayload *pb.C2SWrapper, regMethod pb.RegistrationSource, clientAddr []byte) (*pb.RegistrationResponse, error)
+//@   requires p != nil && p.metrics != nil && !held(&p.selectorMutex) && rheld(&p.selectorMutex) == 0
+//@   requires len(p.minOverrideSubnets) == len(p.minOverrideSubnetsCumulativeWeights) && len(p.prefixOverrideSubnets) == len(p.prefixOverrideSubnetsCumulativeWeights)
+//@   atcall processBdReq before: assert @C12: arg1 == c2sPayload && (c2sPayload == nil || c2sPayload.RegistrationResponse == nil)
+//@   atcall processBdReq after: snap resp := res0
+//@   atcall processC2SWrapper before: assert @C12: arg1 == c2sPayload && defined(resp) && c2sPayload != nil && c2sPayload.RegistrationResponse == resp
+//@   ensures @C12 @C11: result1 == nil ==> result0 != nil && defined(resp) && result0 == resp
